@@ -84,6 +84,7 @@ class Monitor:
         self.initial_prob = {}  # task key -> probability right after instantiation
         self.state_ops = 0  # bumped by every ledger operation and task transition
         self.sched_loop = (None, None, 0)  # (clock, state_ops, repeats)
+        self.event_loop = (None, None, 0)
 
     def tick(self):
         self.seq += 1
@@ -341,6 +342,16 @@ def install():
             MON.clock_violations.append(("event_time_vs_clock", f"{event.event_type.name} for t={t} handled at clock {clock}"))
         MON.now = t
         MON.events.append((MON.tick(), event.event_type.name, t, tkey(event.task) if event.task is not None else None))
+        # any event type: hundreds of events handled at one clock value with no task or ledger change in between
+        c2, ops2, n2 = MON.event_loop
+        if c2 == t and ops2 == MON.state_ops:
+            n2 += 1
+            if n2 >= 400:
+                raise Abort("livelock", f"{n2} events handled at t={t} with no task or ledger change in between (last: {event.event_type.name} "
+                                        f"{tkey(event.task) if event.task is not None else ''}): the clock cannot advance")
+            MON.event_loop = (c2, ops2, n2)
+        else:
+            MON.event_loop = (t, MON.state_ops, 0)
         if event.event_type.name == "SCHEDULER_START":
             c, ops, n = MON.sched_loop
             if c == t and ops == MON.state_ops:
